@@ -693,6 +693,139 @@ pub fn kzg(rec: &mut Rec) {
     }
 }
 
+/// Hyrax openings: the masks of the dot-product argument.  From a proof, the commitment state and a replay of the
+/// verifier's challenge, the prover's masks are recovered: d = z - c*(l^T M), r_d = z_d - c*<l, row randomness>,
+/// r_b = z_b - c*r_eval.  They must open the auxiliary commitments (com_d = <key, d> + r_d*h, com_b = <r,d>*g_0 + r_b*h),
+/// be non-zero and pairwise distinct over ALL proofs of one call (one polynomial, two, three; `open` and `batch_open`
+/// with several labels at one point), and change with the RNG seed; the same seed reproduces the proof.
+pub fn hyrax_open_masks(rec: &mut Rec) {
+    use ark_crypto_primitives::sponge::CryptographicSponge;
+    use ark_poly_commit::QuerySet;
+    type S = SHyr;
+    for nv in [2usize, 4] {
+        let cfg = KeyCfg::ml(nv);
+        let keys = match build_keys::<S>(&cfg, rec.seed) {
+            Ok(k) => k,
+            Err(_) => continue,
+        };
+        let shapes = S::shapes(&cfg, rec.seed);
+        let dim = 1usize << (nv / 2);
+        for k in [1usize, 2, 3] {
+            for entry in ["open", "batch_open"] {
+                for family in ["distinct-polynomials", "equal-polynomials"] {
+                    let id = format!("HYR/open-masks/nv={}/k={}/{}/{}", nv, k, entry, family);
+                    if !rec.take(&id) {
+                        continue;
+                    }
+                    rec.dim("scheme", "HYR");
+                    // the last shapes are the generic (dense random) ones
+                    let polys: Vec<LP<S>> = (0..k).map(|i| lp::<S>(&format!("p{}", i), shapes[shapes.len() - 1 - if family == "equal-polynomials" { 0 } else { i % shapes.len() }].1.clone(), None, None)).collect();
+                    let c = match commit_set::<S>(&keys, polys, rec.seed, 0) {
+                        Ok(c) => c,
+                        Err(_) => continue,
+                    };
+                    let z: Vec<FrJ> = rho_stream::<FrJ>(rec.seed, 61, nv);
+                    let sel: Vec<usize> = (0..k).collect();
+                    let prove = |kk: usize| -> Option<Vec<ark_poly_commit::hyrax::HyraxProof<GJ>>> {
+                        if entry == "open" {
+                            open_single::<S>(&keys, &c, &sel, &z, 0, rec.seed, kk).ok().map(|s| s.proof)
+                        } else {
+                            let mut qs = QuerySet::new();
+                            for i in 0..k {
+                                qs.insert((format!("p{}", i), ("z".to_string(), z.clone())));
+                            }
+                            open_batch::<S>(&keys, &c, &sel, &qs, 0, rec.seed, kk).ok().map(|b| {
+                                let list: Vec<Pf<S>> = b.proof.into();
+                                list.into_iter().flatten().collect()
+                            })
+                        }
+                    };
+                    let (p0, p0b, p1) = match (prove(0), prove(0), prove(1)) {
+                        (Some(a), Some(b), Some(c)) => (a, b, c),
+                        _ => {
+                            viol(rec, "HYR", "open/in-domain", &id, "open failed".into());
+                            continue;
+                        }
+                    };
+                    rec.op(4);
+                    rec.count_points(1);
+                    if p0.len() != k {
+                        viol(rec, "HYR", "open/proof-count", &id, format!("{} proofs for {} polynomials", p0.len(), k));
+                        continue;
+                    }
+                    if ser(&p0) != ser(&p0b) {
+                        viol(rec, "HYR", "open/same-seed-differs", &id, "the same RNG seed gave a different proof".into());
+                    }
+                    let rev: Vec<FrJ> = z.iter().rev().cloned().collect();
+                    let l = tensor_msb(&rev[nv / 2..]);
+                    let r = tensor_msb(&rev[..nv / 2]);
+                    let recover = |pf: &Vec<ark_poly_commit::hyrax::HyraxProof<GJ>>| -> Result<Vec<Vec<FrJ>>, String> {
+                        let mut sponge = sponge_pre::<FrJ>(0);
+                        let mut out = Vec::new();
+                        for (i, p) in pf.iter().enumerate() {
+                            let st: MHyraxState<FrJ> = convert(&c.states[i]);
+                            let rows = &c.comms[i].commitment().row_coms;
+                            let mut b = Vec::new();
+                            ser_unc(&keys.vk, &mut b);
+                            sponge.absorb(&b);
+                            let mut b = Vec::new();
+                            ser_unc(rows, &mut b);
+                            sponge.absorb(&b);
+                            sponge.absorb(&z);
+                            for g in [&p.com_eval, &p.com_d, &p.com_b] {
+                                let mut b = Vec::new();
+                                ser_unc(g, &mut b);
+                                sponge.absorb(&b);
+                            }
+                            let ch: FrJ = sponge.squeeze_field_elements(1)[0];
+                            if p.z.len() != dim || st.mat.entries.len() != dim || st.randomness.len() != dim {
+                                return Err("shape".into());
+                            }
+                            let lt: Vec<FrJ> = (0..dim).map(|j| (0..dim).map(|i| l[i] * st.mat.entries[i][j]).sum()).collect();
+                            let r_lt: FrJ = (0..dim).map(|i| l[i] * st.randomness[i]).sum();
+                            let d: Vec<FrJ> = (0..dim).map(|j| p.z[j] - ch * lt[j]).collect();
+                            let r_d = p.z_d - ch * r_lt;
+                            let r_b = p.z_b - ch * p.r_eval;
+                            if naive_msm(&keys.ck.com_key[..dim], &d) + naive_mul(&keys.ck.h, &r_d) != p.com_d.into_group() {
+                                return Err(format!("proof {}: com_d is not the commitment to the recovered mask", i));
+                            }
+                            if naive_mul(&keys.ck.com_key[0], &inner(&r, &d)) + naive_mul(&keys.ck.h, &r_b) != p.com_b.into_group() {
+                                return Err(format!("proof {}: com_b is not the commitment to <r, mask>", i));
+                            }
+                            let mut all = d;
+                            all.push(r_d);
+                            all.push(r_b);
+                            all.push(p.r_eval);
+                            out.push(all);
+                        }
+                        Ok(out)
+                    };
+                    match (recover(&p0), recover(&p1)) {
+                        (Ok(m0), Ok(m1)) => {
+                            rec.class("masks-recovered");
+                            let flat: Vec<FrJ> = m0.iter().flatten().cloned().collect();
+                            if let Err(e) = all_nonzero_distinct(&flat) {
+                                viol(rec, "HYR", "open/degenerate-masks", &id, format!("masks of the {} proofs of one call: {}", k, e));
+                            }
+                            for i in 0..k {
+                                if (0..m0[i].len()).any(|j| m0[i][j] == m1[i][j]) {
+                                    viol(rec, "HYR", "open/other-seed-same-mask", &id, format!("proof {}: a mask scalar is the same under independent RNG seeds", i));
+                                }
+                            }
+                            rec.obs(&format!("HYR|open-masks|{}|{}|{}", nv, k, entry));
+                        }
+                        (Err(e), _) | (_, Err(e)) => {
+                            rec.class("masks-not-recovered");
+                            viol(rec, "HYR", "open/mask-identity", &id, e);
+                        }
+                    }
+                    rec.sample("HYR-open-masks", id.clone());
+                }
+            }
+        }
+    }
+}
+
 pub fn run(rec: &mut Rec) {
     kzg(rec);
     scheme::<SMar>(rec);
@@ -704,4 +837,5 @@ pub fn run(rec: &mut Rec) {
     mixed_batches::<SPst>(rec);
     mixed_batches::<SIpa>(rec);
     hyrax(rec);
+    hyrax_open_masks(rec);
 }
